@@ -6,13 +6,14 @@ PROP = {'streams': [('c05', 4000, 250000)],
          'and i64-boundary forms in every operand position, reserved words / non-identifiers as attribute names and record keys, escape-heavy '
          'strings, entity ids, patterns and annotation values, ASTs built from arbitrary Unicode strings, policies/templates (all scope forms, '
          'slots, annotations, 0-3 when/unless clauses) and policy sets of 5; each accepted text: print, reparse, eq_shape/==, evaluate on random '
-         'worlds, both printers (AST Display, EST Display) for policies, sets as multisets modulo ids; model lines: Parse_model(lex t) = parse_impl '
+         'worlds, both printers (AST Display, EST Display) for policies, sets as multisets modulo ids; policy-level model lines: Parse_model(lex t) = parse_impl t as a whole policy/template AST (annotations, effect, scope constraints, folded when/unless condition; accepts and rejects) for generated policy texts AND for t = Display(policy), Print_model(policy) ~ lex(Display(policy)) token for token; expression-level model lines: Parse_model(lex t) = parse_impl '
          't (accept and reject), Print_model e ~ lex(print_impl e), parse_impl(render(Print_model e)) = e via the driver sub-process, unescape_model '
          '= to_unescaped_string / like-pattern; non-trivial = accepted expression with >= 3 sub-expressions or an accepted policy (distinct by '
          'canonical AST) or a distinct raw literal',
- 'theorems': ['unescape_escape', 'unescape_escape_pattern', 'parse_print_full', 'parse_image', 'parse_print_parse', 'round_trip_meaning', 'round_trip_meaning_text', 'parse_print_partial3',
+ 'theorems': ['policy_parse_print', 'annotation_round_trip', 'policy_round_trip_text', 'unescape_escape', 'unescape_escape_pattern', 'parse_print_full', 'parse_image', 'parse_print_parse', 'round_trip_meaning', 'round_trip_meaning_text', 'parse_print_partial3',
               'parse_print_partial', 'inFrag3_parserImage', 'parserImage_inFrag3', 'inFrag2_inFrag3'],
- 'assumptions': ['the harness tokenizer (token classes of grammar.lalrpop) is trusted',
+ 'assumptions': ['PolicyParseImage (the model policy parser only returns PolicyImage objects) is stated, not proved; multi-clause when/unless forms enter the theorems through their folded image, the fold itself is checked by the polparse lines',
+                 'the harness tokenizer (token classes of grammar.lalrpop) is trusted',
                  "escape_debug's Unicode tables are not modelled: the theorems quantify over an arbitrary mustEscape predicate",
                  'the LALRPOP-generated tables are tied to the model parser by the (parse ...) correspondence lines, accepts and rejects']}
 
@@ -21,9 +22,12 @@ TEXT = ('Lean theorems over a token-level model of the printer (mirror of est/ex
  'tables; the full expression-level statement parse_print_full: Parse(Print e) = e for EVERY AST in the parser image (literals incl. entity '
  'uids, slots, member access, like, is, method and extension calls, sets, records, all operators and unparenthesised chains); parse_image: on '
  'well-formed tokens the parser only returns ASTs of that image; parse_print_parse: every accepted token list re-parses to the same AST after '
- 'printing (includes a proof of intercalate/splitOn inverse laws for the legacy byte-position String.splitOn). '
+ 'printing (includes a proof of intercalate/splitOn inverse laws for the legacy byte-position String.splitOn); the policy-level statement '
+ 'policy_parse_print: parsePolicy(printPolicy p) = p for EVERY policy/template in the parser image (annotations with arbitrary values, effect, all scope-constraint forms incl. '
+ 'slots and is..in, action ==/in [..], no or one folded condition without slots), model = token-level mirror of Display for TemplateBody and of grammar Policy/Annotation/VariableDef/Cond '
+ 'composed with cst_to_ast (to_policy_template, to_ref_or_refs, construct_template_policy). '
  'Tied to the code by cross-composition runs '
  "(model parser on the real printer's output and on arbitrary generated texts incl. rejects, real parser on the model printer's output) and the "
  'statement itself checked on the implementation for expressions, policies, templates and policy sets with evaluation on random requests.',
- 'proof over a hand-written model (expression level complete; policies/templates/annotations and the lexer are covered by runs only); correspondence sampled + an exhaustive operator-pair grid; the harness '
+ 'proof over a hand-written model (expression level and policy/template level complete for print-then-parse; soundness of the policy image predicate, the lexer, policy sets and the EST printer are covered by runs only); correspondence sampled + an exhaustive operator-pair grid; the harness '
  'tokenizer is trusted')
